@@ -62,7 +62,7 @@ def check(ctx):
         if "k" not in params:
             continue
         for n in walk_no_nested(f):
-            if isinstance(n, ast.BinOp) and isinstance(n.op, (ast.Div, ast.FloorDiv, ast.Mod)) and unparse(n.right) == "k":
+            if isinstance(n, ast.BinOp) and isinstance(n.op, (ast.Div, ast.FloorDiv, ast.Mod)) and eqv(n.right, "k"):
                 n_div += 1
                 ok = _k_nonzero(f, n)
                 ctx.ob("ABS.k-zero.division", n, f"{qn}: {unparse(n)[:50]} with k != 0", ok, "" if ok else "k == 0 reaches a division by k (ZeroDivisionError for an empty sample request)")
@@ -86,7 +86,7 @@ def check(ctx):
     sm = mod.func("_sample")
     ok = any(isinstance(n, ast.Raise) and has_fact(inline_facts(sm, n), "k < 0", True) is not None for n in ast.walk(sm))
     g = cfg_of(sm)
-    rais = [n for n in ast.walk(sm) if isinstance(n, ast.If) and unparse(n.test) == "k < 0"]
+    rais = [n for n in ast.walk(sm) if isinstance(n, ast.If) and eqv(n.test, "k < 0")]
     ok = ok and bool(rais) and all(g.dominates(g.node_of(rais[0]), g.node_of(c)) for c in calls(sm, "reduction"))
     ctx.ob("ABS.k-negative", sm, "_sample rejects k < 0 before building the reduction", ok)
     sr = mod.func("_sample_reduce")
@@ -95,7 +95,7 @@ def check(ctx):
         facts = inline_facts(sr, n)
         ok = has_fact(facts, "k_i > 0", True) is not None
         ctx.ob("ABS.reduce-weights", n, f"_sample_reduce: {unparse(n)} only for partitions that contributed (k_i > 0)", ok)
-    early = [r for r in returns(sr) if unparse(r.value) == "(s, n)"]
+    early = [r for r in returns(sr) if eqv(r.value, "(s, n)")]
     ok = bool(early) and any("k > n and (not replace)" in unparse(e) or "k > n and not replace" in unparse(e) for r in early for e, p in inline_facts(sr, r) if p)
     ctx.ob("DELEG.sample.all-when-short", sr, "without replacement and k > n: everything seen so far is kept", ok)
     for fn, inner, rep in (("sample", "_sample", False), ("choices", "_sample_with_replacement", True)):
@@ -111,7 +111,7 @@ def check(ctx):
     rs = bm.func("random_sample")
     ctor = find("random_state = Random()", rs, nested=False)
     sets = find("random_state.setstate(state_data)", rs, nested=False)
-    draws = [c for c in calls(rs, None, nested=False) if isinstance(c.func, ast.Attribute) and unparse(c.func.value) == "random_state" and c.func.attr in ("random", "randint", "choice", "uniform", "sample", "shuffle", "getrandbits")]
+    draws = [c for c in calls(rs, None, nested=False) if isinstance(c.func, ast.Attribute) and eqv(c.func.value, "random_state") and c.func.attr in ("random", "randint", "choice", "uniform", "sample", "shuffle", "getrandbits")]
     ctx.count("random_sample_draws", len(draws))
     if ctor:
         ctx.floor("random_sample_draws", 1)
@@ -139,7 +139,7 @@ def check(ctx):
         leaks = [r for r in returns(f_) if r.value is not None and any(isinstance(e, ast.Name) and e.id == pname for e in (r.value.elts if isinstance(r.value, ast.Tuple) else [r.value]))]
         ctx.ob("EFFECT.no-alias.map", f_, f"{f_.name} returns a reservoir it built, never the partition `{pname}` itself", not leaks, "" if not leaks else "the partition list itself is returned: the reduce step extends it in place and the bag's data grows")
     sr_ = rnd.func("_sample_reduce")
-    acc = [a for a in walk_no_nested(sr_) if isinstance(a, ast.Assign) and unparse(a.targets[0]) == "s"]
+    acc = [a for a in walk_no_nested(sr_) if isinstance(a, ast.Assign) and eqv(a.targets[0], "s")]
     loopvars = {x.id for l in walk_no_nested(sr_) if isinstance(l, ast.For) for x in ast.walk(l.target) if isinstance(x, ast.Name)} | {t.id for a in walk_no_nested(sr_) if isinstance(a, ast.Assign) for t_ in a.targets for t in ast.walk(t_) if isinstance(t, ast.Name) and any(isinstance(v, ast.Name) and v.id == "i" for v in ast.walk(a.value))}
     bad = [a for a in acc if isinstance(a.value, ast.Name) and a.value.id in loopvars]
     ok = bool(acc) and not bad and any(isinstance(a.value, ast.List) and not a.value.elts for a in acc)
@@ -152,7 +152,7 @@ def check(ctx):
     ctx.ob("EFFECT.seeded.private-generator", rsf, "random_sample creates its own Random() per call, seeds it with state_data and draws only from it", ok, "" if ok else "a generator shared between calls is re-seeded and drawn from: lazily chained or zipped seeded samples clobber each other's stream")
     # ---------------- weighted sampling without replacement works on POSITIONS, not values
     ws = rnd.func("_weighted_sampling_without_replacement")
-    ok = bool(find("elt = [(math.log(rnd.random()) / weights[i], i) for i in range(len(weights))]", ws)) and any(unparse(r.value) == "[population[x[1]] for x in heapq.nlargest(k, elt)]" for r in returns(ws))
+    ok = bool(find("elt = [(math.log(rnd.random()) / weights[i], i) for i in range(len(weights))]", ws)) and any(eqv(r.value, "[population[x[1]] for x in heapq.nlargest(k, elt)]") for r in returns(ws))
     ctx.ob("ALG.sample.by-position", ws, "keys are computed per position i and the k largest positions are returned", ok, "" if ok else "sampling by value merges duplicate elements (and needs hashable elements): fewer candidates than the population holds")
 
 
